@@ -5,7 +5,7 @@ use shuttle::scheduler::{Schedule, TaskId};
 use shuttle_engine::scheduler::serialization::{deserialize_schedule, serialize_schedule};
 use shuttle_engine::scheduler::ScheduleStep;
 
-fn boundary_seeds(rng: &mut Rng) -> Vec<u64> {
+pub fn boundary_seeds(rng: &mut Rng) -> Vec<u64> {
     let mut v = vec![0, 1, u64::MAX, 1 << 63, (1 << 63) - 1, (1 << 63) + 1];
     for k in 1..=9 {
         let b = 1u64.checked_shl(7 * k).unwrap_or(0);
@@ -21,7 +21,7 @@ fn boundary_seeds(rng: &mut Rng) -> Vec<u64> {
     v
 }
 
-fn boundary_tids(rng: &mut Rng) -> Vec<usize> {
+pub fn boundary_tids(rng: &mut Rng) -> Vec<usize> {
     let mut v = vec![0usize, 1, 2, 3, usize::MAX, usize::MAX - 1, usize::MAX / 2, usize::MAX / 2 + 1];
     for k in 1..usize::BITS {
         let b = 1usize << k;
@@ -35,7 +35,7 @@ fn boundary_tids(rng: &mut Rng) -> Vec<usize> {
     v
 }
 
-fn gen_schedule(rng: &mut Rng, seeds: &[u64], tids: &[usize], max_len: usize) -> Schedule {
+pub fn gen_schedule(rng: &mut Rng, seeds: &[u64], tids: &[usize], max_len: usize) -> Schedule {
     let seed = *rng.pick(seeds);
     let len = match rng.below(10) {
         0 => 0,
@@ -93,12 +93,12 @@ fn describe(s: &Schedule) -> serde_json::Value {
 }
 
 /// Decode under catch_unwind: Ok(Some/None) or Err(panic message)
-fn decode(s: &str) -> Result<Option<Schedule>, String> {
+pub fn decode(s: &str) -> Result<Option<Schedule>, String> {
     let s2 = s.to_string();
     std::panic::catch_unwind(move || deserialize_schedule(&s2)).map_err(|p| crate::util::panic_message(&p))
 }
 
-fn with_whitespace(rng: &mut Rng, enc: &str) -> String {
+pub fn with_whitespace(rng: &mut Rng, enc: &str) -> String {
     let mut out = String::new();
     let ws = [" ", "\n", "\t", "\r\n", "  "];
     if rng.chance(1, 2) {
